@@ -113,11 +113,14 @@ class BooleanHamiltonianGate(raw_types.Gate):
     The gate is specified by a list of parameters, $[x_0, x_1, \dots, x_{n-1}]$, a
     list of boolean expressions that are functions of these parameters,
     $[f_0(x_0,\dots,x_{n-1}), f_1(x_0,\dots,x_{n-1}), \dots f_{p-1}(x_0,\dots,x_{n-1})]$
-    and an angle $t$. For these parameters the gate is
+    and an angle $t$. For these parameters the gate is, up to a global phase,
 
     $$
-    \sum_{x=0}^{2^n-1} e^{i \frac{t}{2} \sum_{k=0}^{p-1}f_k(x_0,\dots,x_{n-1})} |x\rangle\langle x|
+    \sum_{x=0}^{2^n-1} e^{-i \frac{t}{2} \sum_{k=0}^{p-1}f_k(x_0,\dots,x_{n-1})} |x\rangle\langle x|
     $$
+
+    (each Pauli-Z term $w Z_{j_1} \cdots Z_{j_m}$ of the Hamiltonian $H = \sum_k f_k$ contributes
+    $e^{-i t w Z_{j_1} \cdots Z_{j_m} / 2}$; the term proportional to the identity is dropped).
     """
 
     def __init__(self, parameter_names: Sequence[str], boolean_strs: Sequence[str], theta: float):
@@ -133,8 +136,8 @@ class BooleanHamiltonianGate(raw_types.Gate):
         Boolean expression would be true iff the vertices on that are in different cuts (i.e. it's)
         an XOR.
 
-        Then, we compute exp(-j * theta * polynomial), which is unitary because the polynomial is
-        Hermitian.
+        Then, we compute exp(-j * theta / 2 * polynomial) up to a global phase, which is unitary
+        because the polynomial is Hermitian.
 
         Args:
             parameter_names: The names of the inputs to the expressions.
